@@ -125,7 +125,7 @@ def parse(lines):
         elif f[0] == 'ORACLE-FAIL': oracle.append(f[1:])
     return fails, stats, diffs, herr, cases, oracle
 
-def run(v, bin_, args, seed, what, timeout=3000):
+def run(v, bin_, args, seed, what, timeout=6000):
     rc, out = sh([bin_] + [str(a) for a in args], timeout=timeout, env={'VERIF_SEED': str(seed)})
     if rc != 0: v.obligation('harness %s ran' % what, False, out[-800:])
     return out.splitlines()
@@ -172,7 +172,7 @@ def main(argv):
             f, s, _, _, _, _ = parse(run(v, c04, replay_cmd(r), seed, 'corpus replay'))
             for x in f: x['desc'] = 'corpus/C04/known/%s' % os.path.basename(kf)
             fails += f
-        budget, nexec, ncorr = (1100, 20, 600) if tier == 'quick' else (40000, 300, 30000)
+        budget, nexec, ncorr = (1100, 20, 600) if tier == 'quick' else (8000, 100, 30000)
         sc = float(os.environ.get('VERIF_BUDGET_SCALE', '1'))   # for trying out a tier quickly; 1 in normal use
         budget, nexec, ncorr = [max(10, int(x * sc)) for x in (budget, nexec, ncorr)]
         f, s, d, he, _, _ = parse(run(v, c04, ['fuzz', mf, budget, tier, nexec], seed, 'fuzz'))
